@@ -115,7 +115,7 @@ def run(ctx, report):
             if kind == 'countdefect':
                 segs = count_defect_doc(rng, d, icvn)
             else:
-                segs = docgen.envelope_doc(rng, d, icvn=icvn, n_isa=1, max_groups=2, max_sets=2, max_body=5,
+                segs = docgen.envelope_doc(rng, d, icvn=icvn, n_isa=rng.choice([1, 1, 2, 3]), max_groups=2, max_sets=2, max_body=5,
                                            faults=0.3 if kind == 'faulty' else 0.0, hl=True, lx=False)
             if kind == 'layout':
                 segs = [(' ' + s if rng.random() < 0.2 and i > 0 else s) + (d[1] if rng.random() < 0.2 and i > 0 else '')
@@ -195,6 +195,13 @@ def run(ctx, report):
                                     ok = False
                         if not ok:
                             report.fail('C20:fix-altered-other-values', 'fixcounting changed something other than a count', inp)
+                        if kind in ('countdefect', 'clean'):
+                            # the repaired counts against a recount that shares no code with the reader x12norm relies on
+                            import C11
+                            rb = [b for b in C11.independent_recount(out_stdout, d) if b[0] in ('SE01', 'GE01', 'IEA01')]
+                            report.count('independent-recount')
+                            if rb:
+                                report.fail('C20:fix-wrong-count:%s' % rb[0][0], 'after --fixcounting: %s' % '; '.join(b[1] for b in rb[:3]), inp)
                         if kind == 'countdefect':
                             bad = [c for c in e_out if c in ('021', '5', '4', 'HL1')]
                             if bad:
